@@ -185,6 +185,12 @@ func c13(tier string) []*explore.Scenario {
 			}
 		}
 	}
+	// the same bursts reaching calls whose callers give up at that moment (their context is cancelled)
+	for _, mix := range []string{"uu", "us"} {
+		for _, si := range []int{0, 5, 6, 11} {
+			out = append(out, c13SeqC(mix, false, si, 0, 2, 1, true, true), c13SeqC(mix, true, si, 1, 3, 0, true, true))
+		}
+	}
 	return out
 }
 
@@ -214,10 +220,19 @@ func c13SeqA(mix string, withStats bool, first, firstTarget, maxLen, bound int, 
 
 // burst: envelopes are sent back to back, racing with the calls' own processing and teardown.
 func c13SeqT(mix string, withStats bool, first, firstTarget, maxLen, bound int, burst bool) *explore.Scenario {
+	return c13SeqC(mix, withStats, first, firstTarget, maxLen, bound, burst, false)
+}
+
+// ctxEnds (burst mode): the calls are made under a context that is cancelled right after the
+// burst was handed to the transport - the envelopes reach calls whose callers are giving up.
+func c13SeqC(mix string, withStats bool, first, firstTarget, maxLen, bound int, burst, ctxEnds bool) *explore.Scenario {
 	fam := "C13/hostile"
 	mode := "seq"
 	if burst {
 		mode = "burst"
+	}
+	if ctxEnds {
+		mode = "burst-then-cancel"
 	}
 	return &explore.Scenario{
 		Name:   fmt.Sprintf("C13/%s/mix=%s/stats=%v/first=%s>%d/len<=%d/d=%d", mode, mix, withStats, c13Shapes[first].name, firstTarget, maxLen, bound),
@@ -233,6 +248,8 @@ func c13SeqT(mix string, withStats bool, first, firstTarget, maxLen, bound int, 
 			recs := make([]*env.Rec, 2)
 			headerDone := make([]bool, 2)
 			trailerDone := make([]bool, 2)
+			callCtx, cancelCalls := context.WithCancel(context.Background())
+			defer cancelCalls()
 			for i, c := range mix {
 				i := i
 				tag := fmt.Sprintf("c%d", i)
@@ -240,13 +257,13 @@ func c13SeqT(mix string, withStats bool, first, firstTarget, maxLen, bound int, 
 					r := w.Rec(tag, "Unary")
 					recs[i] = r
 					headerDone[i], trailerDone[i] = true, true
-					vsched.GoNamed("caller-"+tag, func() { w.CallUnary(d.CC, context.Background(), r, "x") })
+					vsched.GoNamed("caller-"+tag, func() { w.CallUnary(d.CC, callCtx, r, "x") })
 				} else {
 					r := w.Rec(tag, "Bidi")
 					recs[i] = r
 					opened := make(chan struct{})
 					vsched.GoNamed("caller-"+tag, func() {
-						cs := w.Open(d.CC, context.Background(), r)
+						cs := w.Open(d.CC, callCtx, r)
 						close(opened)
 						if cs != nil {
 							env.CRecvAll(r, cs)
@@ -310,6 +327,9 @@ func c13SeqT(mix string, withStats bool, first, firstTarget, maxLen, bound int, 
 				if !burst {
 					vsched.Quiesce()
 				}
+			}
+			if ctxEnds {
+				cancelCalls()
 			}
 			vsched.Quiesce()
 			// the connection closes
